@@ -412,7 +412,7 @@ func (b *vfBrowser) Do(rep *vfReplica, r *vfReq) *vfResp {
 	if w.idp != nil {
 		idpMark = w.idp.mark()
 	}
-	rec := httptest.NewRecorder()
+	rec := &vfRecorder{ResponseRecorder: httptest.NewRecorder()}
 	func() {
 		defer func() {
 			if p := recover(); p != nil {
@@ -525,4 +525,19 @@ func vfBodyHash(b []byte) string {
 		return "-"
 	}
 	return fmt.Sprintf("%d:%x", len(b), vfHashString(string(bytes.Clone(b))))
+}
+
+// vfRecorder is httptest's recorder plus what a real connection does with informational responses: a 1xx status
+// (100 Continue, 103 Early Hints) is sent on its own and the final status follows; it never becomes the response's status.
+type vfRecorder struct {
+	*httptest.ResponseRecorder
+	Informational []int
+}
+
+func (r *vfRecorder) WriteHeader(code int) {
+	if code >= 100 && code < 200 && code != http.StatusSwitchingProtocols {
+		r.Informational = append(r.Informational, code)
+		return
+	}
+	r.ResponseRecorder.WriteHeader(code)
 }
